@@ -89,9 +89,9 @@ func (m *DefaultInterfaceMocker) Apply(callback interface{}) {
 	if m.method == "" {
 		panic("method is empty")
 	}
-	// Apply 会覆盖之前设定的 When 条件和 Return
-	m.when = nil
 	m.applyByIFaceMethod(m.ctx, m.iFace, m.method, callback, nil)
+	// Apply 会覆盖之前设定的 When 条件和 Return; 被拒绝(panic)的 Apply 不改变仍在生效的 mock
+	m.when = nil
 }
 
 // As 将接口方法 mock 为实际的接收体方法
